@@ -1053,6 +1053,13 @@ def c16(report, rng, tier, findings):
             report.count('two_flattens_over_one_expression_object')
             cases.append(case)
             continue
+        if not cont_el and rng.random() < 0.1:
+            # a PREDICATE (function or class form) whose two arguments are BOTH the flattened element (round 18): the second
+            # argument is evaluated under the binding the first one made, so it is the SAME element - lt(e, e) never holds;
+            # re-unnesting it would pair every element with its siblings
+            pl = (rng.choice(('pred', 'predc')), 'lt', E, E)
+            conds = rng.choice([[pl], [('or', pl, ec)], [('not', pl)], [('and', pc, ('not', pl))], [('or', ec, pl)]])
+            report.count('predicate_with_two_arguments_from_the_element')
         if cont_el:
             # elements that are containers themselves are not ordered against numbers: no condition, or one on the parent
             conds = rng.choice([[], [pc]])
@@ -1916,6 +1923,10 @@ def c05(report, rng, tier, findings):
             order = [v[0] for v in case['vars']]
             rng.shuffle(order)
             case['decl_order'] = order          # declaration order decides the cache key order
+        if i % 3 == 2:
+            # the switch is flipped AFTER the query was written (built with caching on, evaluated with caching off)
+            case['built_under_caching'] = True
+            report.count('switch_turned_off_after_the_query_was_built')
         cases.append(case)
     judge = QueryJudge(report, findings, 'C05', nontrivial=lambda c, r: True)
     # a third of the join cases are evaluated after an evaluation of the same query abandoned after 1-3 rows: the caches
